@@ -83,8 +83,17 @@ def _returns_mutable(f: FuncInfo) -> Optional[str]:
     return None
 
 
+OBSERVER_CALLS = ("debug", "info", "warning", "warn", "error", "exception", "log", "perf_counter", "time", "monotonic", "now", "getLogger",
+                  "print", "process_time", "format")
+
+
 def _transparent_decorator(dec: FuncInfo) -> bool:
-    """def dec(func): [@wraps] def w(*a, **k): return func(*a, **k); return w"""
+    """def dec(func): [@wraps(func)] def w(*a, **k): <observers>; return func(*a, **k); return w
+
+    The wrapper is transparent when, on every path, it calls the wrapped function exactly once with the arguments it was
+    given and returns that result (an exception passes through), and everything else it does only OBSERVES: calls of
+    logging / clock functions, assignments to its own locals, `try ... finally` around the call.  No stores into
+    attributes / subscripts / globals / closure cells, no other return value, no swallowed exception."""
     if not dec.params:
         return False
     fn = dec.params[0]
@@ -98,22 +107,96 @@ def _transparent_decorator(dec: FuncInfo) -> bool:
     if len(inners) != 1 or not (isinstance(rets[0].value, ast.Name) and rets[0].value.id == inners[0].name):
         return False
     w = inners[0]
-    body = [s for s in w.body if not (isinstance(s, ast.Expr) and isinstance(s.value, ast.Constant))]
-    if len(body) == 2 and isinstance(body[0], ast.Assign) and isinstance(body[1], ast.Return) and isinstance(body[1].value, ast.Name) \
-            and len(body[0].targets) == 1 and isinstance(body[0].targets[0], ast.Name) and body[0].targets[0].id == body[1].value.id:
-        call = body[0].value
-    elif len(body) == 1 and isinstance(body[0], ast.Return):
-        call = body[0].value
-    else:
-        return False
-    if not (isinstance(call, ast.Call) and isinstance(call.func, ast.Name) and call.func.id == fn):
-        return False
     a = w.args
+    if a.kwonlyargs or a.defaults:
+        return False
     names = [x.arg for x in a.posonlyargs + a.args]
-    passed = [x.id for x in call.args if isinstance(x, ast.Name)] + [x.value.id for x in call.args if isinstance(x, ast.Starred) and isinstance(x.value, ast.Name)]
-    kw = [k.value.id for k in call.keywords if k.arg is None and isinstance(k.value, ast.Name)]
-    want = names + ([a.vararg.arg] if a.vararg else [])
-    return passed == want and kw == ([a.kwarg.arg] if a.kwarg else []) and not a.kwonlyargs and all(k.arg is None for k in call.keywords)
+    want_pos = names + ([a.vararg.arg] if a.vararg else [])
+    want_kw = [a.kwarg.arg] if a.kwarg else []
+
+    def is_passthrough(call) -> bool:
+        if not (isinstance(call, ast.Call) and isinstance(call.func, ast.Name) and call.func.id == fn):
+            return False
+        passed = []
+        for x in call.args:
+            if isinstance(x, ast.Name):
+                passed.append(x.id)
+            elif isinstance(x, ast.Starred) and isinstance(x.value, ast.Name):
+                passed.append(x.value.id)
+            else:
+                return False
+        kw = [k.value.id for k in call.keywords if k.arg is None and isinstance(k.value, ast.Name)]
+        return passed == want_pos and kw == want_kw and all(k.arg is None for k in call.keywords)
+
+    calls = [n for n in ast.walk(w) if isinstance(n, ast.Call) and isinstance(n.func, ast.Name) and n.func.id == fn]
+    if len(calls) != 1 or not is_passthrough(calls[0]):
+        return False
+    locals_ = set()
+    result_names = set()
+
+    def observer_expr(e) -> bool:
+        """An expression that only reads: no call of anything but observers / attribute reads / formatting."""
+        for n in ast.walk(e):
+            if isinstance(n, ast.Call):
+                if n is calls[0]:
+                    return False
+                nm = n.func.attr if isinstance(n.func, ast.Attribute) else (n.func.id if isinstance(n.func, ast.Name) else "")
+                if nm not in OBSERVER_CALLS:
+                    return False
+            if isinstance(n, (ast.Yield, ast.YieldFrom, ast.Await, ast.NamedExpr, ast.Lambda)):
+                return False
+        return True
+
+    def ok_block(stmts, in_loop=False) -> bool:
+        for st in stmts:
+            if isinstance(st, ast.Expr):
+                if isinstance(st.value, ast.Constant) or observer_expr(st.value):
+                    continue
+                return False
+            if isinstance(st, ast.Assign):
+                if not all(isinstance(t, ast.Name) for t in st.targets):
+                    return False
+                if st.value is calls[0]:
+                    result_names.update(t.id for t in st.targets)
+                elif not observer_expr(st.value):
+                    return False
+                locals_.update(t.id for t in st.targets)
+                continue
+            if isinstance(st, ast.Return):
+                if st.value is calls[0] or (isinstance(st.value, ast.Name) and st.value.id in result_names):
+                    continue
+                return False
+            if isinstance(st, ast.Try):
+                if st.handlers or st.orelse:
+                    return False            # a handler could swallow or replace the exception
+                if not ok_block(st.body) or not ok_block(st.finalbody):
+                    return False
+                if any(isinstance(n, ast.Return) for x in st.finalbody for n in ast.walk(x)):
+                    return False
+                continue
+            if isinstance(st, ast.If):
+                if not observer_expr(st.test) or not ok_block(st.body) or not ok_block(st.orelse):
+                    return False
+                # the call must happen on every path: it may not sit under a condition
+                if any(n is calls[0] for x in st.body + st.orelse for n in ast.walk(x)):
+                    return False
+                continue
+            return False
+        return True
+
+    if not ok_block(w.body):
+        return False
+    # the last statement on the normal path returns the result
+    def returns_result(stmts) -> bool:
+        if not stmts:
+            return False
+        last = stmts[-1]
+        if isinstance(last, ast.Return):
+            return True
+        if isinstance(last, ast.Try):
+            return returns_result(last.body)
+        return False
+    return returns_result(w.body) and not any(isinstance(n, (ast.Global, ast.Nonlocal)) for n in ast.walk(w))
 
 
 def world_rule(model: Model, res, scope: Tuple[str, ...] = (), rule: str = "R-WORLD"):
